@@ -11,24 +11,24 @@ NOTE = ("Trusted base: Coq 8.16.1 kernel (coqc; coqchk in the thorough tier); no
         "validated on every Store call; BLAKE2b collision freeness is a hypothesis. See DESIGN.md section 7.")
 TECH = "machine-checked proof in Coq 8.16.1 of an executable model + correspondence check against the implementation + independent oracle for the failing-input search"
 CLAIMS = {
- "C05": ("Theorems: the binary node format and uvarint round-trip; C05_persist_then_load: persisting a tree of ANY residency mix and loading the returned root from the resulting store yields the canonical tree of the same entries (same size, height, bf) with all hash links resolvable; C05_cycles: any number of insert/update/delete/persist-and-reload cycles; operations keep hash links resolvable. Hypotheses: element encodings round-trip, sizes < 2^64, no hash collision among written nodes. "
+ "C05": ("Theorems: the binary node format and uvarint round-trip; C05_persist_then_load: persisting a tree of ANY residency mix and loading the returned root from the resulting store yields the canonical tree of the same entries (same size, height, bf) with all hash links resolvable; C05_cycles: any number of insert/update/delete/persist-and-reload cycles; operations keep hash links resolvable; C05_root_stays_loadable (the returned root loads from every store extending the resulting one); the many-tree / many-store history theorem includes MakeRoot and LoadMast. Hypotheses: element encodings round-trip, sizes < 2^64, no hash collision among written nodes. "
          "Partial: v1marshaler (JSON) format and Root JSON round trip not proved (modelled byte-exactly and compared on every run); caches outside the model. Tie: persist/reload histories over all key/value kinds, both formats, Root through JSON, 3 cache modes.", "5 C05"),
  "C10": ("Theorems: SeekIter from any probe (present or absent, any layer) on a tree of any shape/height/residency yields exactly the entries not smaller than the probe, ascending (generic in the key type); iteration; empty trees. "
          "Partial: cursor operations (Min/Max/Ceil/Forward/Backward/Get) are modelled and compared with the implementation (random walks on all residencies incl. empty trees, bisect oracle), their position theorem is not proved yet.", "5 C10"),
  "C01": ("Full per-operation theorems for every key/value type (generic in the order and layer function): Get = lookup, Insert = upsert, Delete = remove "
          "(incl. down to empty), failing deletes, Iter = the sorted list, Size, Clone, on trees of any residency mix; history theorem "
-         "C01_refines_sorted_map_partial over all finite histories of new/insert/update/delete/get/size/iter/clone/persist on any number of trees "
-         "(partial: reload is not yet inside that theorem). Tie: 150+ generated histories per run over 6 key kinds x 4 value kinds x bf 2..17 x both formats x 3 cache modes, outcomes compared op by op; sorted-dictionary oracle.", "5 C01"),
+         "C01_refines_sorted_map over all finite histories of new/insert/update/delete/get/size/iter/seek/clone/persist/LoadMast of any captured root/entry diff on any number of trees and stores "
+         "(binary format; side conditions: element encodings round-trip, reload from the store and key kind the root was made with, no name collision among written nodes; the persist-free theorem covers both formats without side conditions). Tie: 150+ generated histories per run over 6 key kinds x 4 value kinds x bf 2..17 x both formats x 3 cache modes, outcomes compared op by op; sorted-dictionary oracle.", "5 C01"),
  "C02": ("Theorems: frame (an operation leaves every other tree's record and abstract contents untouched), store monotonicity, persist keeps contents. "
          "In the model trees are values, so aliasing safety of the Go heap is decided by the correspondence check / snapshot oracle re-reading every captured version after every step with no, large and evicting caches (partial by construction, stated in the theorem file).", "5 C02"),
  "C03": ("Theorems over ALL interleavings of the worker-pool LTS (Sched.v): return only when no Store runs, <= 40 in flight, success => every queued write performed and succeeded, error <=> an executed write failed, schedule independence; sequential: every write is under the name of its bytes, persist keeps contents. "
          "Partial: faithfulness of the LTS to the Go runtime, retry-after-failure and cache-prefix behaviour are decided by the schedule/fault engine (gate-controlled Persist, random completion orders, failing subsets, retries, cross-store cache).", "5 C03"),
- "C04": ("Theorems: every reachable tree is the reference tree build(h, entries) up to residency; the height rule; uniqueness of height, size and shape for equal entries (generic) and for any two supported histories (C04_canonical_partial). "
-         "Partial: equality of root names is up to residency annotations + C08, reload not yet in the history theorem. Tie/oracle: routes to the same contents (permutations, detours, reloads) must give identical Root; height = min(max layer, floor(log_bf(size-1))).", "5 C04"),
+ "C04": ("Theorems: every reachable tree is the reference tree build(h, entries) up to residency; the height rule; uniqueness of height, size and shape for equal entries (generic) and for any two histories incl. persists and reloads through any stores (C04_canonical). "
+         "Partial: equality of root names is up to residency annotations + C08. Tie/oracle: routes to the same contents (permutations, detours, reloads) must give identical Root; height = min(max layer, floor(log_bf(size-1))).", "5 C04"),
  "C08": ("Theorems: every Store event of persisting any tree has name = base64url(BLAKE2b-256(bytes)); bytes are a function of keys, values and child names only; a bound name keeps its bytes; hash/base64 test vector. "
          "Partial: same-name-same-contents needs collision freeness (hypothesis). Tie: (name, bytes) of every Store call equal to the model's; Python hashlib oracle on observed bytes.", "5 C08"),
- "C09": ("Theorems: the reference tree of every non-empty list satisfies the shape predicate (layers per level, children strictly lower, level 0 childless, entry-less nodes only as pass-through), every reachable tree is that reference tree with strictly sorted listing and size = number of entries, for all layer assignments and bf >= 2; persist keeps it. "
-         "Partial: reload not yet in the history theorem. Oracle: independent Python decoder checks every clause on every persisted version, incl. shared-cache / clone-of-clone histories.", "5 C09"),
+ "C09": ("Theorems: the reference tree of every non-empty list satisfies the shape predicate (layers per level, children strictly lower, level 0 childless, entry-less nodes only as pass-through), every reachable tree is that reference tree with strictly sorted listing and size = number of entries, for all layer assignments and bf >= 2, in every world reached by a history with persists and reloads (C09_invariant_of_histories); persist keeps it. "
+         "Oracle: independent Python decoder checks every clause on every persisted version, incl. shared-cache / clone-of-clone histories.", "5 C09"),
  "C13": ("Theorems: a no-op persist writes nothing and returns the same root; every write is named after its bytes; persist keeps contents. Partial: locality, the 2h+2 bound and the IsDirty clause are decided by the oracle on recorded Store calls and the one-sided correspondence of store names (not yet theorems).", "5 C13"),
  "C14": ("Theorems: binary layout lemma, defaults (bf 16, v1.1.5binary) incl. the exact default Root JSON, key order laws, int layer = layer of |v|; Golden.v: 70 frozen nodes, 400 layer rows, 150 comparisons checked against the model by vm_compute (a finite check, labelled). "
          "Tie: implementation and model both compared with golden/golden.obs (frozen from the pinned commit) plus generated layer/cmp/encoding correspondence.", "5 C14"),
@@ -47,7 +47,7 @@ CLAIMS.update({
  "C07": ("Theorems (generic in key/value types): for any two trees with consistently named hash links (any contents, heights, residency mix, nil old tree) the diff succeeds and every name reported as added is reached by the new version, every name the new version reaches is reported as added or reached by the old version, symmetrically for removed; hence (C07_replica_sync) a store holding the old version plus the added nodes holds the whole new version (sto, from which LoadMast succeeds by Reload.load_canon). "
          "Partial: 'each name at most once' (the alreadyNotified memo) not proved yet; decided by correspondence + reachable-set oracle, which also loads the new root from a store holding only old + added nodes. Hypotheses as for C06.", "5 C07"),
  "C06": ("Theorems (generic in key/value types): Mast.diff on any two reachable trees (any contents incl. empty/emptied or a nil old tree, any heights, any residency mix, related or unrelated) terminates within its own step budget and its entry events are exactly the merge-difference of the two sorted listings; that merge-difference reports, for every key, exactly the event the two maps call for (added / removed / changed with old and new values, nothing on agreement), in strictly ascending key order hence once each; a stored name denotes one node (sto_fun) so skipping equal links is sound. "
-         "Partial: the hypotheses (canonical trees, consistently named links) are proved invariant for single-tree persist/reload cycles and persist-free multi-tree histories, not yet for arbitrary multi-store worlds; callback / early-stop / failing-callback / cursor interfaces are derived from the one event list in World.step and compared with the implementation. Tie: diff histories incl. tall trees, unrelated stores, empty and emptied sides, diffstop/difffail/diffcur; dictionary-difference oracle.", "5 C06"),
+         "C06_in_histories: the hypotheses hold for every pair of trees over one store in every reachable world, and the four interfaces (all / early stop / failing callback / cursor) observe exactly that list. Partial: diffs across different stores need one-node-per-name across them (collision freeness, a hypothesis); callback / early-stop / failing-callback / cursor interfaces are derived from the one event list in World.step and compared with the implementation. Tie: diff histories incl. tall trees, unrelated stores, empty and emptied sides, diffstop/difffail/diffcur; dictionary-difference oracle.", "5 C06"),
  "C12": ("Theorems: over histories a failing call leaves every tree, captured root, store and cursor of the world unchanged, read-only calls never change it, only MakeRoot writes to a store; trace order: in Insert and Delete every event that can fail (loads, comparisons, the first layer callback) precedes the commit point, read-only calls never commit, with a total layer function Insert never errs after its commit; C12_delete_refuted: the full statement is false of the state installed at the commit when the shrink loop's load fails (known finding D13, with the grow-loop callback counterpart). "
          "Partial: in-place mutation before the commit and callback faults are outside the value model and are decided by the fault-sweep engine (a fault at every Load / KeyCompare / Marshal call of every operation, and pairs; post-fault contents/size/height read through a fault-free view; retry).", "5 C12"),
  "C16": ("Theorems (unconditional, on trees of any shape, residency mix and outcome, generic in key type): loads of Get <= h+1, Insert <= 2(h+1), Delete <= 2(h+1) when the height is kept, Clone <= 1, split/merge <= level+1 each, LoadMast <= 1; no operation other than persist emits a Store. "
